@@ -385,6 +385,18 @@ func gen(c *trlib.Ctx) error {
 	add("autodelete_turn_checks_the_queue", "handleAutoDeleteQueue deletes through deleteQueue(name, ifUnused=true, _, onlyAutoDelete=true), which tests IsAutoDelete under the queue table lock (C14 C01 C17)",
 		guarded && checks, fmt.Sprintf("call guarded: %v, deleteQueue tests the flag: %v", guarded, checks))
 
+	// 13. recording an unsettled delivery takes no lock of the queue table: it runs under the consumer's status lock, and a
+	// queue.delete cancels consumers (status lock) while it holds the table lock
+	au := trlib.FuncDecl(ch, "Channel.AddUnackedMessage")
+	noLookup := au != nil
+	for _, cn := range callsInOrder(au) {
+		if strings.HasSuffix(cn, "GetQueue") || strings.HasSuffix(cn, "GetVirtualHost") || strings.HasSuffix(cn, "getQueue") {
+			noLookup = false
+		}
+	}
+	add("delivery_takes_no_table_lock", "Channel.AddUnackedMessage does not look the queue up (no queue table lock under the consumer's status lock) (C14 C11)",
+		noLookup, "AddUnackedMessage calls GetQueue / GetVirtualHost")
+
 	// emit
 	sort.SliceStable(facts, func(i, j int) bool { return false })
 	var sb strings.Builder
